@@ -4,18 +4,25 @@ boundaries where the rule can be violated.  Each case is (pdl text, expected err
 A case may legitimately yield several diagnostics of the same pass; the oracle is that the
 expected code is among them and that the description is rejected."""
 
-CONTEXTS = ["packet", "struct", "child", "group"]
+CONTEXTS = ["packet", "struct", "child", "group", "group_unused", "group_nested"]
 
 
-def wrap(rng, fields, ctx=None, extra_decls="", name="X"):
-    """Put a field list (str) in a declaration context."""
-    ctx = ctx or rng.choice(CONTEXTS)
+def wrap(rng, fields, ctx=None, extra_decls="", name="X", post_inline=False):
+    """Put a field list (str) in a declaration context.  `post_inline`: the rule is one of those checked on the declarations
+    that remain after group inlining (field offsets, element and declaration sizes: a group is a fragment, not a layout), so a
+    group that nothing inlines is not a context in which it can be violated."""
+    ctx = ctx or rng.choice([c for c in CONTEXTS if not (post_inline and c == "group_unused")])
     if ctx == "packet":
         return "%s\npacket %s {\n  %s\n}\n" % (extra_decls, name, fields)
     if ctx == "struct":
         return "%s\nstruct %s {\n  %s\n}\n" % (extra_decls, name, fields)
     if ctx == "child":
         return "%s\npacket Par { k: 8, _payload_ }\npacket %s : Par (k = 1) {\n  %s\n}\n" % (extra_decls, name, fields)
+    if ctx == "group_unused":
+        # a group no declaration inlines: its fields are checked all the same
+        return "%s\ngroup %s {\n  %s\n}\npacket NoUse { z: 8 }\n" % (extra_decls, name, fields)
+    if ctx == "group_nested":
+        return "%s\ngroup %s {\n  %s\n}\ngroup Outer { o: 8, %s }\npacket UsesG { Outer }\n" % (extra_decls, name, fields, name)
     return "%s\ngroup %s {\n  %s\n}\npacket UsesG { %s }\n" % (extra_decls, name, fields, name)
 
 
@@ -67,6 +74,12 @@ def cases(rng):
     # E11 duplicate field identifiers
     for a, b in [("a: 8", "a: 16"), ("a: 8", "a: 8[]"), ("a: E", "a: 8"), ("a: 8[2]", "a: E")]:
         add(11, wrap(rng, "%s,\n  m: 8,\n  %s" % (a, b), None, "enum E : 8 { A = 1 }"))
+    # ... in a group whose every use constrains the duplicated identifier (inlining replaces a constrained field by a fixed
+    # field without identifier), directly and through an enclosing group, and in a group that is never used
+    add(11, "group G { a: 8, a: 8 }\npacket P { G { a = 1 }, b: 8 }\n")
+    add(11, "group G { a: 8, m: 16, a: 8 }\ngroup H { G { a = 2 }, h: 8 }\npacket P { H, b: 8 }\n")
+    add(11, "enum E : 8 { A = 1 }\ngroup G { a: E, a: E }\nstruct S { G { a = A } }\n")
+    add(11, "group G { a: 8, a: 8[] }\npacket P { b: 8 }\n")
     # E12/E13/E14 tags
     add(12, "enum E : 8 { A = 1, A = 2 }\n")
     add(12, "enum E : 8 { A = 1, B = 2..5 { A = 3 } }\n")
@@ -182,15 +195,15 @@ def cases(rng):
     add(49, wrap(rng, "c: 1, _reserved_: 7, d: 1 if c = 1, x: 8 if d = 1"))
     # E51 field offsets
     for off in [1, 7, 9]:
-        add(51, wrap(rng, "b: %d, a: 8[]" % off))
-        add(51, wrap(rng, "b: %d, t: S, _reserved_: %d" % (off, (-off) % 8), None, "struct S { x: 8 }"))
+        add(51, wrap(rng, "b: %d, a: 8[]" % off, post_inline=True))
+        add(51, wrap(rng, "b: %d, t: S, _reserved_: %d" % (off, (-off) % 8), None, "struct S { x: 8 }", post_inline=True))
         add(51, wrap(rng, "b: %d, _payload_, _reserved_: %d" % (off, (-off) % 8), "packet"))
     # E52 array element size
     for w in [1, 7, 9, 12]:
-        add(52, wrap(rng, "a: %d[8]" % w))
-        add(52, wrap(rng, "_count_(a): 8, a: %d[]" % w))
+        add(52, wrap(rng, "a: %d[8]" % w, post_inline=True))
+        add(52, wrap(rng, "_count_(a): 8, a: %d[]" % w, post_inline=True))
     # E53 declaration size
     for w in [1, 7, 9, 15, 17]:
         add(53, wrap(rng, "a: %d" % w, rng.choice(["packet", "struct", "child"])))
-    add(53, wrap(rng, "a: 3, b: 8[], c: 4", "packet") if False else wrap(rng, "a: 4, b: 8, c: 3"))
+    add(53, wrap(rng, "a: 3, b: 8[], c: 4", "packet") if False else wrap(rng, "a: 4, b: 8, c: 3", post_inline=True))
     return out
